@@ -369,6 +369,9 @@ def run(ck):
                             "paths are initialised on all")
     reinit.check_init_consistency(ck, prog, "C16-INITCONS", files=FILES)
     ck.floor("C16-INITCONS", 8)
+    ck.rule("C16-READFIRST", ".lzma/.lz/auto decoders: what the coding function can read before storing to it is stored by the init function on every path returning LZMA_OK")
+    reinit.check_read_first(ck, prog, "C16-READFIRST", files=FILES)
+    ck.floor("C16-READFIRST", 12)
     ck.floor("C16-ALONE", 8)
     prog_xz = common.program(ck, ("xz",), files=("/coder.c",))
     check_xz_magic(ck, prog, prog_xz)
